@@ -328,6 +328,8 @@ class Check:
         self.repo = repo
         self.machine = load_machine(prop)
         self.opts = self.machine.tier_opts(tier)
+        if os.environ.get("AWSIM_ASAN_RUNS"):        # development aid: a larger slice on the sanitizer node
+            self.opts["asan_runs"] = int(os.environ["AWSIM_ASAN_RUNS"])
         if os.environ.get("AWSIM_RUN_TIMEOUT"):      # development aid: exercise the watchdog paths
             self.opts["run_timeout"] = float(os.environ["AWSIM_RUN_TIMEOUT"])
         if runs:
